@@ -209,7 +209,7 @@ def _array_resolve(operator, element, time, dimensions):
     def rec_resolve(element, index):
         if(element._elements.vector_size() == 0):
             if isinstance(element.equation, (float, int)):
-                return str(element)
+                return element.term(time)
             return "{}".format(extractTerm(element, time))
         if dimensions == index:
             return ""
@@ -236,7 +236,7 @@ def _matrix_element_to_string(element, time, flat=False):
     def rec_resolve(element, index):
         if(element._elements.vector_size() == 0):
             if isinstance(element.equation, (float, int)):
-                return str(element)
+                return element.term(time)
             return "{}".format(extractTerm(element, time))
         string_term = ""
         for a in element._elements.equations:
@@ -513,7 +513,7 @@ class NaryOperator(Operator):
 
         count = 0
         for arg in self.args:
-            fn_str += str(arg)
+            fn_str += str(extractTerm(arg, time))
             count += 1
             if count < num_args:
                 fn_str += ","
@@ -721,12 +721,12 @@ class NumericalMultiplicationOperator(BinaryOperator):
                 cur_el1 = self.element_1
                 for i in self.index:
                     cur_el1 = cur_el1[i]
-                return "({}) * ({})".format(str(self.element_2), cur_el1.term(time))
+                return "({}) * ({})".format(self.element_2.term(time), cur_el1.term(time))
 
             else:
-                return "(" + str(self.element_2) + ") * (" + self.element_1.term(time) + ")"
+                return "(" + self.element_2.term(time) + ") * (" + self.element_1.term(time) + ")"
         else:
-            return "(" + str(self.element_2) + ") * (" + self.element_1.term(time) + ")"
+            return "(" + self.element_2.term(time) + ") * (" + self.element_1.term(time) + ")"
 
     def resolve_dimensions(self):
         dim1 = _get_element_dimensions(self.element_1)
@@ -1150,7 +1150,7 @@ class Lookup(Function):
             self.points = points
 
     def term(self, time="t"):
-        return "model._lookup({},{})".format(self.element, self.points)
+        return "model._lookup({},{})".format(extractTerm(self.element, time), self.points)
 
 
 class Step(Function):
@@ -1179,9 +1179,9 @@ class Pulse(Function):
 
     def term(self, time="t"):
         if self.interval.element == 0.0:
-            return "(({}/{}) if {}=={} else 0.0)".format(self.volume.term(time), self.model.dt, time, self.first_pulse)
+            return "(({}/{}) if {}=={} else 0.0)".format(self.volume.term(time), self.model.dt, time, self.first_pulse.term(time))
         else:
-            return "(({volume}/{dt}) if (({time}-{first_pulse}) >= 0 and (({time}-{first_pulse})%({interval}))==0) else 0.0)".format(volume=self.volume.term(time), dt=self.model.dt, time=time, first_pulse=self.first_pulse, interval=self.interval)
+            return "(({volume}/{dt}) if (({time}-{first_pulse}) >= 0 and (({time}-{first_pulse})%({interval}))==0) else 0.0)".format(volume=self.volume.term(time), dt=self.model.dt, time=time, first_pulse=self.first_pulse.term(time), interval=self.interval.term(time))
 
 
 class Trend(Function):
@@ -1252,7 +1252,7 @@ class Delay(Function):
 
 
 def extractTerm(obj, time):
-    return obj.term(time) if isinstance(obj, Operator) else obj
+    return obj.term(time) if hasattr(obj, "term") else obj
 
 
 class Random(Function):
@@ -1388,8 +1388,8 @@ class Sinwave(Function):
         self.amplitude = amplitude
         self.period = period
 
-    def term(self, time="t"): return "( np.sin(2*np.pi / ({}) * (t-model.starttime) ) * ({}) )".format(
-        extractTerm(self.period, time), extractTerm(self.amplitude, time))
+    def term(self, time="t"): return "( np.sin(2*np.pi / ({}) * (({})-model.starttime) ) * ({}) )".format(
+        extractTerm(self.period, time), time, extractTerm(self.amplitude, time))
 
 
 class Coswave(Function):
@@ -1397,8 +1397,8 @@ class Coswave(Function):
         self.amplitude = amplitude
         self.period = period
 
-    def term(self, time="t"): return "( np.cos(2*np.pi / ({}) * (t-model.starttime) ) * ({}) )".format(
-        extractTerm(self.period, time), extractTerm(self.amplitude, time))
+    def term(self, time="t"): return "( np.cos(2*np.pi / ({}) * (({})-model.starttime) ) * ({}) )".format(
+        extractTerm(self.period, time), time, extractTerm(self.amplitude, time))
 
 
 class Inf(Function):
